@@ -141,6 +141,40 @@ def abs_lines(data: bytes):
     return tuple(toks), nl
 
 
+_WS = b' \t\n\r\x0b\x0c'
+
+
+def abs_lines_generic(data: bytes):
+    """bytes -> (toks, nl) by the character tests the code applies to a line
+    (empty / whitespace only / starts with whitespace / has a colon); used to
+    have TLC evaluate the line model on long sampled messages.  Never yields
+    a Content-Type or boundary token (the samples have none)."""
+    parts = data.split(b'\n')
+    nl = False
+    if len(parts) > 1 and parts[-1] == b'':
+        nl = True
+        parts = parts[:-1]
+        last_has_lf = True
+    else:
+        last_has_lf = False
+    toks = []
+    for i, pc in enumerate(parts):
+        has_lf = i < len(parts) - 1 or last_has_lf
+        if has_lf and pc.endswith(b'\r'):
+            pc = pc[:-1]
+        if not pc:
+            toks.append('BLANK')
+        elif all(x in _WS for x in pc):
+            toks.append('WSL')
+        elif pc[0] in _WS:
+            toks.append('FOLD')
+        elif b':' in pc:
+            toks.append('HDR')
+        else:
+            toks.append('TEXT')
+    return tuple(toks), nl
+
+
 def line_offsets(data: bytes):
     """(starts, nexts) of the code's lines, computed from LF positions only
     (needed to turn the model's line spans into byte offsets)"""
@@ -875,10 +909,15 @@ def _nontrivial(kind, key) -> bool:
 
 def _long_samples(run: Run, rng: random.Random, n: int) -> list:
     """long random class strings (up to 64 KiB) and deep line-token messages
-    from TLC simulation of WireMimeLines; sampled only"""
+    from TLC simulation of WireMimeLines; sampled only.  The model's
+    prediction for a random class string is obtained by abstracting it to line
+    tokens and having TLC evaluate WireMimeLines on exactly that message."""
+    import shutil
+    import tempfile
     items = []
     weights = [('CH', 60), ('WS', 8), ('HI', 6), ('NUL', 2), ('COLON', 3), ('CR', 3), ('LF', 3)]
     pool = [c for c, wgt in weights for _ in range(wgt)]
+    seeds = {}
     for i in range(n // 2):
         length = rng.choice([100, 1000, 4096, 20000, 65535, 65536])
         classes = []
@@ -886,14 +925,33 @@ def _long_samples(run: Run, rng: random.Random, n: int) -> list:
             c = rng.choice(pool)
             if c == 'CR' and rng.random() < 0.7:
                 classes += ['CR', 'LF']
+            elif c == 'LF' and rng.random() < 0.15:
+                classes += ['LF', 'LF']
             else:
                 classes.append(c)
+        if rng.random() < 0.5:
+            classes.append('LF')
         classes = tuple(classes[:length])
         data = conc_bytes(classes, rng)
-        items.append(('x', 'long-%d-%d' % (length, i), data, _mode_for(data, rng)))
+        key = abs_lines_generic(data)
+        seeds[key] = data
+    tmp = tempfile.mkdtemp(prefix='verif.c03.')
     try:
-        behs, res = tlc.simulate('WireMimeLines.tla', 'WireMimeLines_sim.cfg',
-                                 num=max(4, n // 2), depth=40, seed=run.seed + 1)
+        fixed = set(run.known.fixed)
+        expr = ('\\E sd \\in {' + ', '.join(
+            '<<' + tlc.to_tla(k[0]) + ', ' + ('TRUE' if k[1] else 'FALSE') + '>>'
+            for k in seeds) + '} : toks = sd[1] /\\ nl = sd[2] /\\ pred = Pred(toks, nl)')
+        sts, res = wc.seed_states('WireMimeLines', expr, 'WireMimeLines_sim.cfg', fixed, tmp)
+        run.add_model(res, 'WireMimeLines on the sampled long messages')
+        for st in sts:
+            key = (tuple(st['toks']), bool(st['nl']))
+            if key in seeds:
+                TABLES.line[key] = st
+                data = seeds[key]
+                items.append(('l', key, data, _mode_for(data, rng)))
+        behs, res = tlc.simulate('WireMimeLines.tla', wc.cfg_with_fixed(
+            'WireMimeLines_sim.cfg', fixed, tmp), num=max(4, n // 2), depth=40,
+            seed=run.seed + 1)
         run.add_model(res, 'WireMimeLines_sim.cfg (simulate)')
         for beh in behs:
             _label, st = beh[-1]
@@ -903,7 +961,10 @@ def _long_samples(run: Run, rng: random.Random, n: int) -> list:
             if data:
                 items.append(('l', key, data, _mode_for(data, rng)))
     except tlc.TLCError as exc:
-        run.machinery(f'simulate: {exc}')
+        run.machinery(f'long samples: {exc}')
+    finally:
+        shutil.rmtree(tmp, ignore_errors=True)
+    run.notes['long_sample_lengths'] = sorted({len(it[2]) for it in items})[-6:]
     return items
 
 
